@@ -45,6 +45,8 @@ THEOREMS = [
     "FaxVerif.C10.fallback_double_warns",
     "FaxVerif.C10.fallback_logs_warning",
     "FaxVerif.C10.warns_iff_undeclared",
+    "FaxVerif.C10.undeclared_call_warns",
+    "FaxVerif.C10.translation_history_free",
     "FaxVerif.C10.md_keys",
     "FaxVerif.C10.md_value_type",
     "FaxVerif.C10.md_collection_type",
@@ -73,7 +75,8 @@ RULE = (
     "receivers; enum definitions x attribute paths. Pipeline stream: one query per case whose own metadata declares the event "
     "collection (on CMS with element_pointer absent / False / True), the method signatures (value / pointer depth 0..3 / object / collection by value or pointer of values or "
     "pointers / deref_count 0..3 / tree_type) and enums; columns are chains of calls, indexings and Select/SelectMany loops over "
-    "them; exhaustive over single-signature worlds, then random worlds with 3 classes and chains up to 6 steps, on the three "
+    "them; sequences of 2-3 such translations in one process (same undeclared method used repeatedly, on new and shared executors, through write_cpp_files and through "
+    "the bare visitor, interleaved with declared-only and refused queries) judged translation by translation; exhaustive over single-signature worlds, then random worlds with 3 classes and chains up to 6 steps, on the three "
     "backends. A case is non-trivial when it exercises a pointer depth or deref count > 0, a collection, a tree_type, an enum or "
     "a fallback; distinct = distinct canonical input."
 )
@@ -594,41 +597,114 @@ def _dataset():
     return _DS()
 
 
-def run_pipeline(case: Dict[str, Any]) -> Dict[str, Any]:
-    """Declare everything in the query's own metadata, translate through the public executor API."""
-    backend = case["backend"]
-    reset_globals()
-    out = Path(tempfile.mkdtemp(prefix="vp_c10_"))
-    quiet = [logging.getLogger("func_adl"), logging.getLogger("func_adl.type_based_replacement")]
-    old = [(lg, lg.level) for lg in quiet]
-    for lg in quiet:
-        lg.setLevel(logging.ERROR)
-    try:
-        with capture_warnings() as cw:
-            try:
-                ds = _dataset()
-                cm = collection_md(case)
-                ds = ds.MetaData(cm)
-                # func_adl's extract_metadata hands the dictionaries over outermost call first: apply them in reverse so
-                # that process_metadata sees `case_mds(case)` in list order (the order the model and the Spec use)
-                for e in reversed(case.get("enums", [])):
-                    ds = ds.MetaData({"metadata_type": "define_enum", "namespace": e["ns"], "name": e["name"], "values": list(e["values"])})
-                for md in reversed(case_mds(case)):
-                    ds = ds.MetaData({"metadata_type": "add_method_type_info", **md})
-                q = eval(query_src(case), {"ds": ds})
-                a = q.value()
-                exe = _executor(backend)
-                a2 = exe.apply_ast_transformations(a)
-                exe.write_cpp_files(a2, out)
+def build_query_ast(case: Dict[str, Any]):
+    """The query of a case as func_adl hands it to a backend: all declarations travel in its own MetaData calls."""
+    ds = _dataset()
+    ds = ds.MetaData(collection_md(case))
+    # func_adl's extract_metadata hands the dictionaries over outermost call first: apply them in reverse so
+    # that process_metadata sees `case_mds(case)` in list order (the order the model and the Spec use)
+    for e in reversed(case.get("enums", [])):
+        ds = ds.MetaData({"metadata_type": "define_enum", "namespace": e["ns"], "name": e["name"], "values": list(e["values"])})
+    for md in reversed(case_mds(case)):
+        ds = ds.MetaData({"metadata_type": "add_method_type_info", **md})
+    return eval(query_src(case), {"ds": ds}).value()
+
+
+class _ListEmitter:
+    """The two-space indenter of executor._cpp_source_emitter, for code taken straight from a visitor."""
+
+    def __init__(self):
+        self.lines: List[str] = []
+        self._indent = 0
+
+    def add_line(self, ll):
+        if ll == "}":
+            self._indent -= 1
+        self.lines.append("  " * self._indent + ll)
+        if ll == "{":
+            self._indent += 1
+
+
+def translate_once(case: Dict[str, Any], exe, path: str) -> Dict[str, Any]:
+    """One translation with the given executor, NO reset of process-global state before or after.
+    path "write":   exe.apply_ast_transformations + exe.write_cpp_files (the public entry point, resets at its end)
+    path "visitor": exe.apply_ast_transformations + exe.get_visitor_obj().get_as_ROOT (what a caller that only wants
+                    the code does, e.g. the repo's own test datasets): nothing is reset afterwards."""
+    with capture_warnings() as cw:
+        try:
+            a = build_query_ast(case)
+            a2 = exe.apply_ast_transformations(a)
+            if path == "write":
+                out = Path(tempfile.mkdtemp(prefix="vp_c10_"))
+                try:
+                    exe.write_cpp_files(a2, out)
+                finally:
+                    shutil.rmtree(out, ignore_errors=True)
                 rec = exe.recorded_info
-            except Exception as e:
-                return {"err": type(e).__name__, "msg": str(e)[:300]}
-        return {"query": list(rec["query_code"]), "class_decl": [str(x) for x in rec["class_decl"]], "book": list(rec["book_code"]),
-                "fallbacks": cw.fallbacks()}
-    finally:
-        for lg, lv in old:
+                res = {"query": list(rec["query_code"]), "class_decl": [str(x) for x in rec["class_decl"]], "book": list(rec["book_code"])}
+            else:
+                import func_adl_xAOD.common.cpp_representation as crep
+                from func_adl import find_EventDataset
+                from func_adl_xAOD.common.util_scope import top_level_scope
+
+                file = find_EventDataset(a2)
+                iterator = crep.cpp_variable("bogus-do-not-use", top_level_scope(), cpp_type=None)
+                crep.set_rep(file, crep.cpp_sequence(iterator, iterator, top_level_scope(), file))
+                qv = exe.get_visitor_obj()
+                qv.get_as_ROOT(a2)
+                qe, be = _ListEmitter(), _ListEmitter()
+                qv.emit_query(qe)
+                qv.emit_book(be)
+                res = {"query": qe.lines, "class_decl": [str(x) for x in qv.class_declaration_code()], "book": be.lines}
+        except Exception as e:
+            return {"err": type(e).__name__, "msg": str(e)[:300], "fallbacks": cw.fallbacks()}
+    res["fallbacks"] = cw.fallbacks()
+    return res
+
+
+class _quiet_frontend:
+    def __enter__(self):
+        self.old = [(lg, lg.level) for lg in (logging.getLogger("func_adl"), logging.getLogger("func_adl.type_based_replacement"))]
+        for lg, _ in self.old:
+            lg.setLevel(logging.ERROR)
+
+    def __exit__(self, *a):
+        for lg, lv in self.old:
             lg.setLevel(lv)
-        shutil.rmtree(out, ignore_errors=True)
+
+
+def run_pipeline(case: Dict[str, Any]) -> Dict[str, Any]:
+    """Declare everything in the query's own metadata, translate through the public executor API, in a clean process state."""
+    reset_globals()
+    try:
+        with _quiet_frontend():
+            r = translate_once(case, _executor(case["backend"]), "write")
+        if "err" in r:
+            return {"err": r["err"], "msg": r["msg"]}
+        return r
+    finally:
+        reset_globals()
+
+
+def run_sequence(seq: Dict[str, Any]) -> List[Dict[str, Any]]:
+    """Several translations one after the other in this process; global state is cleaned before the first and after the
+    last only. `exe: "reuse"` queries share one executor object, `exe: "new"` ones get a fresh one."""
+    reset_globals()
+    shared = None
+    out = []
+    try:
+        with _quiet_frontend():
+            for q in seq["queries"]:
+                case = {**mk_case({**seq, "cols": q["cols"]})}
+                if q.get("exe") == "reuse":
+                    if shared is None:
+                        shared = _executor(seq["backend"])
+                    exe = shared
+                else:
+                    exe = _executor(seq["backend"])
+                out.append(translate_once(case, exe, q.get("path", "write")))
+        return out
+    finally:
         reset_globals()
 
 
@@ -934,7 +1010,7 @@ def random_world(rng) -> Dict[str, Any]:
     return w
 
 
-def random_col(rng, world) -> Optional[Dict[str, Any]]:
+def random_col(rng, world, force_undeclared: bool = False) -> Optional[Dict[str, Any]]:
     """A random walk through the declared signatures ending in something a column can hold."""
     by_owner: Dict[str, List[Dict[str, Any]]] = {}
     eff: Dict[Tuple[str, str], Dict[str, Any]] = {}
@@ -945,7 +1021,7 @@ def random_col(rng, world) -> Optional[Dict[str, Any]]:
     cur = ("obj", "T0")  # ("obj", class) | ("coll", sig) | ("val", sig)
     steps: List[Dict[str, Any]] = []
     n_each = 0
-    undeclared = rng.random() < 0.08
+    undeclared = force_undeclared or rng.random() < 0.08
     for _ in range(rng.randint(1, 6)):
         if cur[0] == "obj":
             opts = by_owner.get(cur[1], [])
@@ -1172,6 +1248,168 @@ def _replay_case(c) -> Dict[str, Any]:
 # ----------------------------------------------------------------------------------------------
 # unit streams
 # ----------------------------------------------------------------------------------------------
+# ----------------------------------------------------------------------------------------------
+# sequences of translations in one process: the fallback warning belongs to EVERY translation that assumes double
+# ----------------------------------------------------------------------------------------------
+UNDECL = "zz_undeclared"
+HOW_SEQ = ("in ONE interpreter, without touching cpp_types globals in between: for each entry of `case.queries` build the query (declarations of `case.mds` "
+           "in its own MetaData, as for a pipeline case) and translate it with a new or the shared executor through `path` (write = apply_ast_transformations + "
+           "write_cpp_files; visitor = apply_ast_transformations + get_visitor_obj().get_as_ROOT), collecting the log of func_adl_xAOD.common.ast_to_cpp_translator "
+           "per translation; ./check C10 --replay <this file>")
+
+
+def undeclared_col(rng, world) -> Dict[str, Any]:
+    """A column whose chain ends in a call of the never-declared method on some class of the world."""
+    if rng is not None:
+        for _ in range(12):
+            c = random_col(rng, world, force_undeclared=True)
+            if c is not None and c["steps"] and c["steps"][-1].get("m") == UNDECL and c.get("fin", {}).get("k", "plain") == "plain":
+                return c
+    return {"steps": [call(UNDECL)], "fin": {"k": "plain"}}
+
+
+def declared_col(rng, world) -> Dict[str, Any]:
+    for _ in range(20):
+        c = random_col(rng, world) if rng is not None else None
+        if c is not None and all(st.get("m") not in (UNDECL, "foo") for st in c["steps"]) and not (c["steps"] and c["steps"][-1]["k"] == "index" and False):
+            return c
+    return {"steps": [call("v0")], "fin": {"k": "plain"}}
+
+
+def refused_col() -> Dict[str, Any]:
+    """`t.v0().foo()`: a method call on a double - the translation is refused after earlier columns were visited."""
+    return {"steps": [call("v0"), call("foo")], "fin": {"k": "plain"}}
+
+
+def seq_world(rng) -> Dict[str, Any]:
+    w = random_world(rng) if rng is not None else {"backend": "atlas", "sigs": [], "enums": []}
+    w["sigs"] = [s for s in w["sigs"] if s["m"] != "v0"] + [mk_value_sig(None, "T0", "v0", "double", 0)]
+    return w
+
+
+def mk_query(kind: str, rng, world, path: str, exe: str) -> Dict[str, Any]:
+    if kind == "U":  # uses the undeclared method, possibly next to declared columns
+        cols = [undeclared_col(rng, world)]
+        if rng is not None:
+            for _ in range(rng.choice([0, 0, 1, 2])):
+                cols.insert(rng.randrange(len(cols) + 1), declared_col(rng, world))
+    elif kind == "D":  # declared methods only
+        cols = [declared_col(rng, world) for _ in range(1 if rng is None else rng.randint(1, 2))]
+    else:  # "F": assumes double for the undeclared method, then is refused (nothing is reset after a failed translation)
+        cols = [undeclared_col(rng, world), refused_col()]
+    return {"kind": kind, "cols": cols, "path": path, "exe": exe}
+
+
+SEQ_PATTERNS = [["U", "U"], ["U", "U", "U"], ["U", "D", "U"], ["D", "U", "U"], ["U", "F", "U"], ["F", "U"]]
+
+
+def exhaustive_sequences(tier: str):
+    """Minimal world (only T0::v0 declared), every pattern x every assignment of entry points x both executor modes."""
+    for backend in (["atlas"] if tier == "quick" else BACKENDS):
+        for pat in SEQ_PATTERNS:
+            for paths in itertools.product(["write", "visitor"], repeat=len(pat)):
+                for exe in ("new", "reuse"):
+                    w = seq_world(None)
+                    w["backend"] = backend
+                    w["queries"] = [mk_query(k, None, w, p, exe) for k, p in zip(pat, paths)]
+                    yield w
+
+
+def random_sequence(rng) -> Dict[str, Any]:
+    w = seq_world(rng)
+    pat = rng.choice(SEQ_PATTERNS)
+    w["queries"] = [mk_query(k, rng, w, rng.choice(["write", "visitor"]), rng.choice(["new", "reuse"])) for k in pat]
+    return w
+
+
+def seq_case(seq, i: int) -> Dict[str, Any]:
+    return mk_case({**seq, "cols": seq["queries"][i]["cols"]})
+
+
+def seq_key(seq) -> str:
+    k = {"backend": seq["backend"], "mds": case_mds(seq), "enums": seq.get("enums", []),
+         "queries": [[q.get("path", "write"), q.get("exe", "new"), query_src({"cols": q["cols"]})] for q in seq["queries"]]}
+    if seq.get("element_pointer") is not None and seq["backend"] != "atlas":
+        k["element_pointer"] = bool(seq["element_pointer"])
+    return json.dumps(k, sort_keys=True)
+
+
+def _replay_seq(seq, failing: Optional[int] = None) -> Dict[str, Any]:
+    base = mk_case({**seq, "cols": []})
+    base.pop("cols")
+    return {"kind": "sequence", **base, "collection_md": collection_md(seq), "mds": case_mds(seq), "failing_translation": failing,
+            "queries": [{"kind": q.get("kind"), "path": q.get("path", "write"), "exe": q.get("exe", "new"), "cols": q["cols"], "query": query_src({"cols": q["cols"]})}
+                        for q in seq["queries"]]}
+
+
+def judge_sequences(ctx, stream: str, seqs: List[Dict[str, Any]]):
+    """Every translation of every sequence is judged on its own by the same Spec as a single translation: the text is well
+    typed against the declarations GIVEN the fallbacks logged during that very translation (an undeclared call without
+    its own warning is ill typed), warnings name `double`, none for declared methods."""
+    runs = [run_sequence(sq) for sq in seqs]
+    ctx.check_time()
+    reqs: List[Dict[str, Any]] = []
+    for sq, rs in zip(seqs, runs):
+        for i, r in enumerate(rs):
+            c = seq_case(sq, i)
+            reqs.extend(model_reqs(c))
+            reqs.append(spec_req(c, r) if "err" not in r else {"op": "access", "x": "x", "d": 0, "n": 0})
+    ans = ctx.driver(DRIVER, reqs)
+    k = 0
+    for sq, rs in zip(seqs, runs):
+        key = "seq:" + seq_key(sq)
+        ctx.count(f"seq:{stream}")
+        ctx.count("seq-pattern:" + "".join(q.get("kind", "?") for q in sq["queries"]))
+        first = ctx.dist.get(f"seq:{stream}", 0) == 3
+        ctx.case(key, True, {"sequence": _replay_seq(sq), "warnings_per_translation": [r["fallbacks"] for r in rs]} if first else None)
+        bad = None
+        for i, r in enumerate(rs):
+            m, s = ans[k], ans[k + 1]
+            k += 2
+            if bad is not None or "bad" in m or "bad" in s:
+                continue
+            q = sq["queries"][i]
+            ctx.count(f"seq-translation:{q.get('path', 'write')}:{q.get('exe', 'new')}")
+            mcols = m.get("cols") or []
+            if in_exclusion(mcols):
+                ctx.count("seq:generated-inside-defect-exclusion")
+                bad = "excluded"
+                continue
+            model_errs = [mc["err"] for mc in mcols if "err" in mc]
+            obs = {"translation": i, "warnings_per_translation": [x["fallbacks"] for x in rs], "result": r}
+            if "err" in r:
+                ctx.count("seq-impl:" + r["err"])
+                if mcols and all(mc.get("must_accept", False) for mc in mcols):
+                    ctx.violation(key=key, what=f"translation #{i} of a sequence in one process is refused ({r['err']}: {r.get('msg', '')[:100]}) although every call in it is declared or allowed",
+                                  case=_replay_seq(sq, i), observed=obs, how=HOW_SEQ)
+                    bad = "violation"
+                continue
+            ctx.count("seq-impl:ok")
+            model_warn = sorted(set((w[0], w[1]) for mc in mcols if "ok" in mc for w in mc["ok"]["warns"]))
+            impl_warn = sorted(set((w[0], w[1]) for w in r["fallbacks"]))
+            if model_warn:
+                ctx.count("seq-translation:assumes-double")
+            if not s.get("holds", False):
+                missing = [w for w in model_warn if w not in impl_warn]
+                extra = " — no warning was logged during this translation for " + ", ".join(f"{a}::{b}" for a, b in missing) if missing else ""
+                ctx.violation(key=key, what=f"translation #{i} of a sequence of translations in one process does not honour the declarations{extra}: " + str(s.get("why")),
+                              case=_replay_seq(sq, i), observed=obs, how=HOW_SEQ)
+                bad = "violation"
+                continue
+            if any(w[2] != "double" for w in r["fallbacks"]):
+                ctx.violation(key=key, what=f"translation #{i}: the fallback warning names a type other than double", case=_replay_seq(sq, i), observed=obs, how=HOW_SEQ)
+                bad = "violation"
+                continue
+            if model_errs:
+                ctx.disagreement("sequence-model-refuses", _replay_seq(sq, i), model_errs, {"ok": r["query"]})
+                continue
+            o = observe(r)
+            impl_cols = [canon_col(o, col) for col in o["cols"]]
+            model_cols = [canon_model_col(mc["ok"]) for mc in mcols]
+            if impl_cols != model_cols or impl_warn != model_warn:
+                ctx.disagreement("sequence", _replay_seq(sq, i), {"cols": model_cols, "warns": model_warn}, {"cols": impl_cols, "warns": impl_warn})
+
+
 HOW_UNIT = "call the function named by `case.op` with the arguments of `case` (see impl_unit in tools/props/c10.py); ./check C10 --replay <this file>"
 
 
@@ -1360,12 +1598,17 @@ def run(ctx):
     thorough = ctx.tier == "thorough"
     ex = list(exhaustive_worlds(ctx.tier)) + list(element_pointer_worlds(ctx.tier))
     judge_pipeline(ctx, "exhaustive", ex, compile_all=thorough, compile_sample=60)
-    n = 450 if not thorough else 6000
+    n = 350 if not thorough else 6000
     rnd = [random_case(ctx.rng) for _ in range(n)]
     for lo in range(0, len(rnd), 1000):
         judge_pipeline(ctx, "random", rnd[lo:lo + 1000], compile_all=thorough, compile_sample=140)
+    seqs = list(exhaustive_sequences(ctx.tier))
+    judge_sequences(ctx, "exhaustive", seqs)
+    judge_sequences(ctx, "random", [random_sequence(ctx.rng) for _ in range(40 if not thorough else 800)])
     ctx.extra_cov["exhaustive"] = False
     ctx.extra_cov["exhaustive_part"] = (
+        "sequences of 2-3 translations in one process over the minimal world: 6 patterns of (U)ndeclared-use / (D)eclared-only / re(F)used-after-assuming queries x every "
+        "assignment of the two entry points x new / shared executor; "
         "type strings over 3 (quick) / 6 (thorough) base names x const x 0..3 stars x all blank patterns from a 3/4-letter blank alphabet; member access d,n in 0..3; "
         "single-signature worlds: value forms (object pointer depth 0..3 x deref_count absent,0..3; arithmetic x tree_type) and collection forms (element pointer depth 0..2 x "
         "default/custom collection type x collection pointer depth 0..3 x deref_count) each used by an indexed and (depth <= 1) an iterated column"
@@ -1382,6 +1625,8 @@ def search(ctx, broken):
     sub = _SearchCtx(ctx)
     cases = list(exhaustive_worlds("thorough")) + list(element_pointer_worlds("thorough")) + [random_case(ctx.rng) for _ in range(1500)]
     judge_pipeline(sub, "search", cases, compile_all=False, compile_sample=150)
+    if not sub.violations:
+        judge_sequences(sub, "search", list(exhaustive_sequences("thorough")) + [random_sequence(ctx.rng) for _ in range(300)])
     if not sub.violations:
         judge_units(sub)
     if not sub.violations:
@@ -1436,6 +1681,8 @@ def _fails(ctx, case) -> Optional[Dict[str, Any]]:
 def shrink(ctx, v):
     """Structural deletion on a pipeline case: drop columns, then unused signatures, then trailing steps."""
     c = v["case"]
+    if c.get("kind") == "sequence":
+        return shrink_sequence(ctx, v)
     if c.get("kind") != "pipeline":
         return v
     case = mk_case(c)
@@ -1460,8 +1707,71 @@ def shrink(ctx, v):
     return v
 
 
+def _seq_fails(ctx, seq) -> Optional[Dict[str, Any]]:
+    sub = _SearchCtx(ctx)
+    judge_sequences(sub, "shrink", [seq])
+    return sub.violations[0] if sub.violations else None
+
+
+def shrink_sequence(ctx, v):
+    """Drop whole translations, then columns, then unused declarations, while some translation still fails."""
+    c = v["case"]
+    seq = {**mk_case({**c, "cols": []}), "queries": [{"kind": q.get("kind"), "path": q["path"], "exe": q["exe"], "cols": q["cols"]} for q in c["queries"]]}
+    seq.pop("cols", None)
+    changed = True
+    while changed:
+        changed = False
+        cands = []
+        for i in range(len(seq["queries"])):
+            if len(seq["queries"]) > 1:
+                cands.append({**seq, "queries": seq["queries"][:i] + seq["queries"][i + 1:]})
+        for i, q in enumerate(seq["queries"]):
+            for j in range(len(q["cols"])):
+                if len(q["cols"]) > 1:
+                    cands.append({**seq, "queries": seq["queries"][:i] + [{**q, "cols": q["cols"][:j] + q["cols"][j + 1:]}] + seq["queries"][i + 1:]})
+        used = {st["m"] for q in seq["queries"] for col in q["cols"] for st in col["steps"] if st["k"] == "call"}
+        slim = [s for s in seq["sigs"] if s["m"] in used]
+        if len(slim) < len(seq["sigs"]):
+            cands.append({**seq, "sigs": slim})
+        for cand in cands[:16]:
+            f = _seq_fails(ctx, cand)
+            if f is not None:
+                seq, v, changed = cand, f, True
+                break
+    return v
+
+
+def replay_sequence(ctx, c) -> int:
+    seq = {**mk_case({**c, "cols": []}), "queries": c["queries"]}
+    seq.pop("cols", None)
+    for md in case_mds(seq):
+        print("metadata (in every query):", md)
+    rs = run_sequence(seq)
+    rc = 0
+    for i, (q, r) in enumerate(zip(seq["queries"], rs)):
+        case = seq_case(seq, i)
+        print(f"--- translation #{i} [{q.get('path', 'write')}, {q.get('exe', 'new')} executor]: {query_src(case)}")
+        print("    warnings logged during this translation:", r["fallbacks"])
+        m = ctx.driver(DRIVER, model_reqs(case))[0]
+        if "err" in r:
+            must = all(mc.get("must_accept", False) for mc in m.get("cols", []))
+            print("    raised:", r["err"], r.get("msg", "")[:120], "| the property obliges the translator to accept it:", must)
+            rc = rc or (1 if must else 0)
+            continue
+        for ln in r["query"]:
+            print("    " + ln)
+        print("    class variables:", r["class_decl"])
+        s = ctx.driver(DRIVER, [spec_req(case, r)])[0]
+        print("    spec (typing judgement, given THIS translation's warnings):", s)
+        if not s.get("holds") or any(w[2] != "double" for w in r["fallbacks"]):
+            rc = 1
+    return rc
+
+
 def replay(ctx, rep) -> int:
     c = rep["case"]
+    if c.get("kind") == "sequence":
+        return replay_sequence(ctx, c)
     if c.get("kind") == "element_pointer":
         c = {**c, "kind": "pipeline", "element_pointer": True}
     if c.get("kind") == "unit":
